@@ -121,6 +121,8 @@ class Segment(GeoBody):
         if isinstance(v, Vector):
             self.start_point.move(v)
             self.end_point.move(v)
+            # the carrier line is derived from the end points
+            self.line = Line(self.start_point, self.end_point)
             return Segment(self.start_point, self.end_point)
         else:
             raise NotImplementedError(
